@@ -648,7 +648,7 @@ pub fn grammar_strategy(cfg: GenCfg) -> BoxedStrategy<Gram> {
 
 /// grammar-extras rejects tags on silent rules and built-ins ("will not appear in the output"):
 /// such tags are dropped by construction.
-fn fix_tags(g: &mut Gram) {
+pub fn fix_tags(g: &mut Gram) {
     let snapshot = g.clone();
     fn target_ok(g: &Gram, e: &GE) -> bool {
         match e {
